@@ -418,9 +418,11 @@ BOTTOM = AV("bottom")
 class Interp:
     MAX_DEPTH = 40
 
-    def __init__(self, program, domain, assume=None):
+    def __init__(self, program, domain, assume=None, memo=True, unroll=0):
         self.p = program
         self.dom = domain
+        self.use_memo = memo
+        self.unroll = unroll  # > 0: execute loop bodies that many times in sequence (bug-finding mode)
         self.assume = dict(assume or {})  # normalised test text -> bool (mode scenarios)
         self.memo = {}
         self.active = []
@@ -434,7 +436,7 @@ class Interp:
         args = list(args or [])
         kwargs = dict(kwargs or {})
         key = (id(fi), self_av.key() if self_av is not None else None, tuple(a.key() for a in args), tuple(sorted((k, v.key()) for k, v in kwargs.items())), self._ctx_key())
-        if key in self.memo:
+        if self.use_memo and key in self.memo:
             self.stats["memo_hits"] += 1
             return self.memo[key]
         if any(k[0] == key[0] and k[1] == key[1] for k in self.active) or len(self.active) > self.MAX_DEPTH:
@@ -794,6 +796,14 @@ class Interp:
     def st_For(self, st, env):
         it = self.eval(st.iter, env)
         elem = self.iter_elem(it, st)
+        if self.unroll:
+            cur = env
+            for _ in range(self.unroll):
+                self.assign(st.target, elem, cur, st)
+                cur, term = self.exec_block(st.body, cur)
+                if term:
+                    break
+            return cur, False
         pre = env
         npc = len(self.frame.pc)
         cur = env.copy()
@@ -826,6 +836,14 @@ class Interp:
         return out, False
 
     def st_While(self, st, env):
+        if self.unroll:
+            cur = env
+            for _ in range(self.unroll):
+                self.eval(st.test, cur)
+                cur, term = self.exec_block(st.body, cur)
+                if term:
+                    break
+            return cur, False
         cur = env.copy()
         for i in range(6):
             t = self.eval(st.test, cur)
